@@ -93,6 +93,7 @@ fn main() {
         let res = match what.as_str() {
             "C19" => Some(checks::c19::run(&ctx)),
             "C03" => Some(checks::c03::run(&ctx)),
+            "C17" => Some(checks::c17::run(&ctx)),
             "C04" => Some(checks::c04::run(&ctx)),
             "C16" => Some(checks::c16::run(&ctx)),
             "C01" => Some(checks::c01::run(&ctx)),
